@@ -64,6 +64,11 @@ def finding(fid):
             f"{len(res)} results (all members above the limit) but {len(written)} member files were decompressed and written to disk"
     if fid == "F30-pdf-mcid-order-list-scan":
         return amp_pdf_mcid()
+    if fid == "F31-7z-lzma2-declared-size-ignored":
+        r = sevenzip_declared("_decompress_lzma2")
+        if r is None:
+            return False, {}, "LZMA2 folders stop at the declared size"
+        return True, r["inputs"], r["observed"]
     return False, {}, "unknown finding"
 
 
@@ -303,14 +308,75 @@ RTF_BUILDERS = (
     ("n page breaks", lambda n: "{\\rtf1 " + "a\\page " * n + "}"),
     ("one control word of n letters", lambda n: "{\\rtf1 \\" + "a" * n + " x}"),
     ("n unterminated groups", lambda n: "{\\rtf1 " + "{\\b " * n),
+    ("n sibling groups", lambda n: "{\\rtf1 " + "{\\b x}" * n + "}"),
+    ("n sibling groups with white space after the brace", lambda n: "{\\rtf1 " + "{\r\n \\i x}" * n + "}"),
+    ("n nested groups each followed by text", lambda n: "{\\rtf1 " + "{x " * n + "}" * n + "}"),
 )
 
 
-def amp_rtf():
+class CountingStr(str):
+    """str whose slices are counted (characters copied out of the scanned text; slices of slices count too): a deterministic cost measure
+    for a scanner that receives its text as an argument."""
+    copied = 0
+
+    def __getitem__(self, k):
+        r = str.__getitem__(self, k)
+        if isinstance(k, slice):
+            CountingStr.copied += len(r)
+            return CountingStr(r)
+        return r
+
+
+def _rtf_counted(ob):
+    """The scan function named by the obligation (`<Class>.<method>(self, text)`), run on a parser instance over every builder at two sizes
+    with the text handed in as CountingStr: characters sliced out of the text must grow linearly with it.  None when the function cannot
+    be set up this way (then only the timing below decides)."""
+    import re as _re
+    from sharepoint2text.parsing.extractors.ms_legacy import rtf_extractor as Rm
+    m = _re.search(r"::([A-Za-z_][\w]*)\.([A-Za-z_][\w]*)/", ob or "")
+    if not m:
+        return None
+    cls = getattr(Rm, m.group(1), None)
+    if cls is None or not callable(getattr(cls, m.group(2), None)):
+        return None
+    n1, n2 = 1500, 12000
+    seen_any = False
+    for label, build in RTF_BUILDERS:
+        counts = []
+        for n in (n1, n2):
+            text = build(n)
+            try:
+                inst = cls(b"{\\rtf1 x}")
+                CountingStr.copied = 0
+                getattr(inst, m.group(2))(CountingStr(text))
+            except RecursionError:
+                counts = None
+                break
+            except Exception:  # noqa
+                counts = None
+                break
+            counts.append((CountingStr.copied, len(text)))
+        if not counts:
+            continue
+        seen_any = True
+        (c1, l1), (c2, l2) = counts
+        if c2 > 3 * (l2 / l1) * max(c1, l1) and c2 > 64 * l2:
+            return True, {"builder": f"RTF body with {label}, n = {n1} and {n2}, handed to {m.group(1)}.{m.group(2)} as a str that counts the characters sliced out of it"}, \
+                f"{c1} characters sliced out of a {l1}-character body, {c2} out of a {l2}-character body (x{c2 / max(c1, 1):.1f} for x{l2 / l1:.1f} input)"
+    return (False, {}, "characters sliced out of the text grow linearly for every builder") if seen_any else None
+
+
+def amp_rtf(ob=None):
     from sharepoint2text.parsing.extractors.ms_legacy import rtf_extractor as Rm
     read = getattr(Rm, "read_rtf", None)
     if read is None:
         return False, {}, "no read_rtf"
+    try:
+        counted = _rtf_counted(ob)
+    except Exception:  # noqa
+        counted = None
+    if counted is not None and counted[0]:
+        return counted
     worst = (False, {}, "no builder scales worse than linearly")
     for label, build in RTF_BUILDERS:
         def run(data):
@@ -602,6 +668,26 @@ def amp_pdf_mcid():
 AMPLIFIERS = (("pdf_extractor.py::*/amp-bounded#list-membership", amp_pdf_mcid), ("ppt_extractor.py::*/amp-bounded#no-rescan", amp_ppt_consumers), ("rtf_extractor.py::_RtfParser._strip_rtf_full_with_pages/amp-bounded#carve", amp_rtf), ("xls_extractor.py::_extract_images_from_workbook/amp-bounded#carve", amp_xls), ("_extract_png_images_from_bytes/amp-bounded#carve", amp_png), ("_extract_images_from_word_document/amp-bounded#carve", amp_dib),
               ("ppt_extractor.py::_iter_records/amp-bounded#carve", amp_ppt), ("ppt_extractor.py::*/amp-bounded#nested-scans", amp_ppt),
               ("mbox_email_extractor.py::*/amp-bounded#no-self-suffix", amp_mbox), ("policy#xml-parsed", amp_xml_all))
+
+
+LZMA2_CHAINS = ("LZMA2", "BCJ+LZMA2", "COPY+LZMA2", "BCJ+COPY+LZMA2")
+LZMA_CHAINS = ("LZMA", "BCJ+LZMA", "COPY+LZMA", "BCJ+COPY+LZMA")
+
+
+def sevenzip_declared(ob=""):
+    """7z folders whose packed stream expands far beyond the declared size.  The coder chains are those of the decoder the obligation names
+    (`_decompress_lzma2` -> chains ending in LZMA2, `_decompress_lzma` -> LZMA); otherwise all chains that are not a recorded finding."""
+    import sys as _sys
+    _sys.path.insert(0, os.path.dirname(os.path.abspath(__file__)))
+    import archive_probe
+    ob = ob or ""
+    if "_decompress_lzma2" in ob:
+        skip = LZMA_CHAINS
+    elif "_decompress_lzma" in ob:
+        skip = LZMA2_CHAINS
+    else:
+        skip = LZMA2_CHAINS if any(f["id"].startswith("F31-") for f in _recorded_findings()) else ()
+    return archive_probe.sevenzip_declared_sizes(skip=skip)
 
 
 def _got(fn):
@@ -1101,19 +1187,25 @@ def native_scope(which):
     _sys.path.insert(0, os.path.dirname(os.path.abspath(__file__)))
     import archive_probe
     if which == "explicit-limits":
-        for fn in (limits_read_file, limits_file_types, limits_7z, limit_values, archive_probe.oversize_members, member_boundary, tar_links, entry_limit):
+        for fn in (limits_read_file, limits_file_types, limits_7z, limit_values, archive_probe.oversize_members, archive_probe.sevenzip_members, member_boundary, tar_links, entry_limit):
             r = fn()
             if r is not None:
                 r["reproduced"] = True
                 return r
         return {"reproduced": False, "note": "read_file / 7z / per-member / per-entry limits hold at their boundaries (files of 100, 5000, 70000 bytes, symlinks, "
-                                             "the 7z fixture, zip/tar layouts with oversize, same-name and link members)"}
+                                             "the 7z fixture, zip/tar layouts with oversize, same-name and link members, 7z archives with an oversize member behind six spellings of a small member's path)"}
     if which == "zip-bomb-classes":
         r = zip_bomb_classes()
         if r is not None:
             return r
         return {"reproduced": False, "note": "odt / ods / docx with a 6 MB deflate-bomb content part in 14 container variants (streamed entries, header flag bits, "
                                              "directory attributes, bzip2 / lzma, duplicate names): all refused"}
+    if which == "7z-declared-sizes":
+        r = sevenzip_declared("")
+        if r is not None:
+            return r
+        return {"reproduced": False, "note": "7z folders declared as 128 bytes whose packed LZMA / LZMA2 stream expands to 48 MB, alone and behind BCJ / COPY coders "
+                                             "(chains recorded as known findings left out): none is inflated beyond the declared size"}
     if which == "repeat-attribute-classes":
         rec = {f["id"] for f in _recorded_findings()}
         ok, inputs, obs = repeat_classes(set(), rec)
@@ -1164,6 +1256,17 @@ def find(req):
         r = zip_bomb_classes()
         if r is not None:
             return r
+    # ---- 7z: declared folder sizes, members sharing a path
+    if generic or "sevenzip.py::" in ob or "_decompress" in ob:
+        r = sevenzip_declared(ob)
+        if r is not None:
+            return r
+        if not generic:
+            return {"reproduced": False, "note": "no 7z folder is inflated beyond its declared size in the directed coder chains"}
+    if generic or "_extract_from_7z_optimized" in ob or "_process_7z" in ob:
+        r = archive_probe.sevenzip_members()
+        if r is not None:
+            return r
     # ---- per-member limits
     if generic or "member-size-check" in ob or "_extract_from_zip_optimized" in ob or "_extract_from_tar_optimized" in ob:
         r = archive_probe.oversize_members() or member_boundary()
@@ -1180,7 +1283,7 @@ def find(req):
     # ---- amplification
     for key, fn in AMPLIFIERS:
         if key in ob:
-            ok, inputs, obs = fn()
+            ok, inputs, obs = fn(ob) if fn is amp_rtf else fn()
             if ok:
                 return {"reproduced": True, "target": ob, "inputs": inputs, "observed": obs,
                         "expected": "work and output bounded by a fixed multiple of the input size"}
